@@ -157,8 +157,18 @@ def gen_case(rnd, exhaustive):
     pats = [gen_pattern(rnd, names) for _ in range(k)]
     texts = [p[0] for p in pats]
     paths = exhaustive_universe(names) if exhaustive else random_universe(rnd, names)
-    return {"names": names, "patterns": texts, "classes": [(p[1], p[2]) for p in pats],
-            "sources": sr.split_sources(rnd, texts), "paths": paths}
+    sources = sr.split_sources(rnd, texts)
+    # blank lines and `#` comment lines of a .gitignore (and blank / comment strings in the configured lists) are no
+    # patterns: pathspec makes them null patterns, the model's `parseAll` skips them (`Gi.ignoredLine`)
+    ignored = []
+    if rnd.random() < 0.4:
+        for _ in range(rnd.randint(1, 3)):
+            line = rnd.choice(["", "   ", "\t", "# a comment", "#x", " # indented comment", "#" + (texts[0] if texts else "src")])
+            src = sources[rnd.choice(["gitignore", "gitignore", "option", "config"])]
+            src.insert(rnd.randint(0, len(src)), line)
+            ignored.append(line)
+    return {"names": names, "patterns": texts, "classes": [(p[1], p[2]) for p in pats], "ignored_lines": ignored,
+            "sources": sources, "paths": paths}
 
 
 # ------------------------------------------------------------------ the real decision
@@ -241,7 +251,7 @@ def decode_class(reply):
 def correspond(rnd, n, driver=DEFAULT_DRIVER, keep=40, exhaustive_share=0.6):
     """n cases; -> summary dict (disagreements must be empty)"""
     cases = [gen_case(rnd, exhaustive=(i < n * exhaustive_share)) for i in range(n)]
-    replies = run_driver(driver, [request(c["patterns"], c["paths"]) for c in cases])
+    replies = run_driver(driver, [request(c["patterns"] + c.get("ignored_lines", []), c["paths"]) for c in cases])
     # parsing: the class of every generated line, and the texts outside the fragment
     flat = [(t, cl) for c in cases for t, cl in zip(c["patterns"], c["classes"])]
     outside = outside_texts()
@@ -280,7 +290,8 @@ def correspond(rnd, n, driver=DEFAULT_DRIVER, keep=40, exhaustive_share=0.6):
         # the spec holds DEFAULT_EXCLUDES, then the configured lines (option, then config file), then .gitignore
         order = list(sr.PINNED_BUILTIN) + c["sources"]["option"] + c["sources"]["config"] + c["sources"]["gitignore"]
         counts["regex_checked"] += len(order)
-        if real_regex != [model_regex.get(t) for t in order]:
+        # ignored lines (blank, `#` comments) carry no expression on either side; pathspec may also drop a final empty line
+        if [x for x in real_regex if x is not None] != [model_regex.get(t) for t in order if model_regex.get(t) is not None]:
             counts["regex_mismatch"] += 1
             if len(regex_bad) < keep:
                 regex_bad.append({"lines": order[26:], "real": real_regex[26:], "model": [model_regex.get(t) for t in order[26:]]})
